@@ -66,6 +66,28 @@ def rand_input(rng, ftype, n, z0):
     random S (entries up to ~1.2) or from a random matrix scaled to the
     impedance level, so that the result is not systematically singular"""
     how = rng.integers(0, 3)
+    if ftype in ("Y", "Z") and n >= 2 and rng.random() < 0.15:
+        # lumped networks whose own matrix is singular although the network
+        # is perfectly ordinary: a floating mesh of series elements (every
+        # row of Y sums to zero) or a single shunt element seen from every
+        # port (Z = z . ones).  Conversions that need the inverse are skipped
+        # by the conditioning filter; S and the input impedances are defined.
+        zl = float(np.sqrt(np.mean(np.abs(z0))))
+        m = np.zeros((n, n), dtype=complex)
+        if ftype == "Y":
+            for i in range(n):
+                for j in range(i + 1, n):
+                    if n == 2 or rng.random() < 0.7:
+                        y = (rng.uniform(0.2, 3) + 1j * rng.standard_normal()) \
+                            / zl ** 2
+                        m[i, i] += y
+                        m[j, j] += y
+                        m[i, j] -= y
+                        m[j, i] -= y
+        else:
+            z = (rng.uniform(0.2, 3) + 1j * rng.standard_normal()) * zl ** 2
+            m[:, :] = z
+        return m
     if how < 2:
         s = (rng.standard_normal((n, n)) + 1j * rng.standard_normal((n, n))) \
             * rng.uniform(0.1, 0.8)
